@@ -85,6 +85,7 @@ func (tr *transport) handleMessage(r io.Reader) error {
 	}
 
 	ch := make(chan *callExchange)
+	verifPointTr("reader:fetch", tr)
 	select {
 	case tr.pendingFetch <- &pendingFetch{id: id, call: ch}:
 	case <-tr.serveDone:
@@ -96,6 +97,7 @@ func (tr *transport) handleMessage(r io.Reader) error {
 	case <-tr.serveDone:
 		return io.ErrUnexpectedEOF
 	}
+	verifPointTr("reader:got", tr)
 	if ex == nil {
 		log.Printf("discard response #%d, type=%d", id, typ)
 		return nil
@@ -104,6 +106,7 @@ func (tr *transport) handleMessage(r io.Reader) error {
 		log.Printf("response #%d, type %d!=%d", id, typ, ex.typ)
 		return nil
 	}
+	verifPointTr("reader:done", tr)
 	defer ex.done()
 
 	if ex.resp != nil {
@@ -173,6 +176,7 @@ func (tr *transport) serve() error {
 	for {
 		select {
 		case c := <-tr.calls:
+			verifPointTr("serve:take", tr)
 			c.id = id
 			id++ // increase the id
 
@@ -194,6 +198,7 @@ func (tr *transport) serve() error {
 				c.done()
 				return err
 			}
+			verifPointTr("serve:sent", tr)
 
 			if old, found := pending[c.id]; found {
 				old.err = errTooLong
@@ -202,7 +207,9 @@ func (tr *transport) serve() error {
 			}
 
 			pending[c.id] = c
+			verifPointTr("serve:stored", tr)
 		case fetch := <-tr.pendingFetch:
+			verifPointTr("serve:fetch", tr)
 			c, found := pending[fetch.id]
 			if found {
 				delete(pending, fetch.id)
